@@ -314,6 +314,7 @@ func search(seed uint64, n int, dc string, repo string, mode string) {
 }
 
 func worker(dcPath, mode string) {
+	bx.Registered = registered()
 	dc, err := bx.LoadDontCare(dcPath)
 	if err != nil {
 		fmt.Fprintln(os.Stderr, "dontcare:", err)
